@@ -48,12 +48,19 @@ class FreshnessDateDataParser:
             if not isinstance(_time, time):
                 return dateobj
 
-            return dateobj.replace(
+            dateobj = dateobj.replace(
                 hour=timeobj.hour,
                 minute=timeobj.minute,
                 second=timeobj.second,
                 microsecond=timeobj.microsecond,
             )
+            tz = dateobj.tzinfo
+            if hasattr(tz, "localize"):
+                # pytz zone: the new wall clock may lie on the other side of a DST change
+                dateobj = tz.localize(
+                    dateobj.replace(tzinfo=None), is_dst=bool(dateobj.dst())
+                )
+            return dateobj
 
         if settings.RELATIVE_BASE:
             now = settings.RELATIVE_BASE
